@@ -32,7 +32,7 @@ theorem shape_as_documented :
     of `Handler.emit` (try/except, lock, marker, hand-off) does exactly what the stage-by-stage
     specification says: same new state, same stderr reports, same exception at the call site. -/
 theorem emit_characterised (env : Env) (c : Cfg) (n i : Nat) (s : HState)
-    (hq : Quiet s) (hre : env.reenter i c.id = none) :
+    (hq : Quiet s) (hre : env.reenter i c.id = []) :
     emitD env c n i s = expected env c i s :=
   emitD_characterised env c n i s hq hre
 
@@ -46,7 +46,7 @@ theorem catch_true_never_raises (env : Env) (c : Cfg) (n i : Nat) (s : HState)
 /-- … and with a working stderr there is exactly one report, carrying the handler id, the record
     and the error of the first failing stage, iff some stage failed; none otherwise. -/
 theorem catch_true_reports_iff_failed (env : Env) (c : Cfg) (n i : Nat) (s : HState)
-    (hc : c.catch_ = true) (hq : Quiet s) (hre : env.reenter i c.id = none)
+    (hc : c.catch_ = true) (hq : Quiet s) (hre : env.reenter i c.id = [])
     (herr : env.stderr i c.id = .ok) :
     (emitD env c n i s).ev =
       match outcome env c i s.stopped with
@@ -67,7 +67,7 @@ theorem handler_recovers (env : Env) (c : Cfg) (n i : Nat) (s : HState) (hq : Qu
 /-- a message that failed before the hand-off leaves the handler state untouched, so the next
     message is processed exactly as if the failing one had never been logged -/
 theorem next_message_unaffected (env : Env) (c : Cfg) (n i j : Nat) (s : HState) (e : Err)
-    (hq : Quiet s) (hre : env.reenter i c.id = none) (hf : outcome env c i s.stopped = .failed e) :
+    (hq : Quiet s) (hre : env.reenter i c.id = []) (hf : outcome env c i s.stopped = .failed e) :
     emitD env c n j (emitD env c n i s).st = emitD env c n j s := by
   rw [emit_characterised env c n i s hq hre]
   unfold expected handle
@@ -82,10 +82,18 @@ theorem others_still_receive (env : Env) (n i : Nat) (reg : Reg) (hq : AllQuiet 
     (logLoop env n i reg).reg = reg.map (fun p => (p.1, (emitD env p.1 n i p.2).st)) :=
   logLoop_all_catch env n i reg hq hc ht
 
+/-- REFINEMENT of the whole handler loop of `Logger._log`: for usable handlers whose sinks do not call
+    the logger it is the specification's loop – same registry states, same reports in the same order,
+    same exception at the call site (induction over the registry) -/
+theorem log_loop_characterised (env : Env) (n i : Nat) (reg : Reg) (hq : AllQuiet reg)
+    (hre : ∀ p ∈ reg, env.reenter i p.1.id = []) :
+    logLoop env n i reg = specLoop env i reg :=
+  logLoop_eq_specLoop env n i reg hq hre
+
 /-- … and a direct (non-enqueue, non-coroutine) handler has received message `i` iff its own stages
     up to `write` succeeded -/
 theorem receives_iff_own_stages_succeed (env : Env) (c : Cfg) (n i : Nat) (s : HState)
-    (hq : Quiet s) (hre : env.reenter i c.id = none) (he : c.enqueue = false) (hk : c.kind ≠ .coroutine) :
+    (hq : Quiet s) (hre : env.reenter i c.id = []) (he : c.enqueue = false) (hk : c.kind ≠ .coroutine) :
     (emitD env c n i s).st.sink =
       (if (outcome env c i s.stopped).handedOver then s.sink ++ [i] else s.sink) := by
   rw [emit_characterised env c n i s hq hre]
@@ -105,7 +113,7 @@ theorem outcome_local (env env' : Env) (c : Cfg) (i : Nat) (b : Bool)
 /-- `catch=False` on handler `c`: the error of its first failing stage reaches the caller, with no
     report -/
 theorem catch_false_raises_first_failure (env : Env) (c : Cfg) (n i : Nat) (s : HState) (e : Err)
-    (hc : c.catch_ = false) (hq : Quiet s) (hre : env.reenter i c.id = none)
+    (hc : c.catch_ = false) (hq : Quiet s) (hre : env.reenter i c.id = [])
     (hf : outcome env c i s.stopped = .failed e ∨ outcome env c i s.stopped = .deliveredThenFailed e) :
     (emitD env c n i s).res = .raised e ∧ (emitD env c n i s).ev = [] := by
   rw [emit_characterised env c n i s hq hre]
@@ -138,6 +146,23 @@ theorem worker_never_dies (env : Env) (c : Cfg) (ht : StderrTame env) (items : L
     (workerRun env c items s).1.sink = s.sink ++ items.flatMap (workerWrites env c) := by
   have h := workerRun_alive env c ht items s hs ha
   exact ⟨h.1, h.2.1, h.2.2.1⟩
+
+/-- … and with a working stderr it reports every failure exactly once, in order: a failing `get`
+    without record, a failing `write`/`flush` with the record, whatever `catch` says -/
+theorem worker_reports_each_failure (env : Env) (c : Cfg) (hok : ∀ i, env.stderr i c.id = .ok)
+    (items : List QItem) (s : HState) (hs : QItem.sentinel ∉ items) :
+    (workerRun env c items s).2 = items.flatMap (workerReports env c) :=
+  workerRun_reports env c hok items s hs
+
+/-- coroutine sinks: every scheduled task is awaited; a failing body yields exactly one event – a
+    stderr report (`catch=True`) or the exception handed to the event loop's handler by the
+    done-callback (`catch=False`) – never an unretrieved exception; the others reach the sink in order -/
+theorem task_exception_retrieved (env : Env) (c : Cfg) (hok : ∀ i, env.stderr i c.id = .ok)
+    (ts : List Nat) (s : HState) :
+    (runTasks env c ts s).1.tasks = [] ∧
+    (runTasks env c ts s).2 = ts.flatMap (taskEvents env c) ∧
+    (runTasks env c ts s).1.sink = s.sink ++ ts.filter (fun i => (env.fault i c.id .coroBody).isNone) :=
+  runTasks_spec env c hok ts s
 
 /-- `remove(hid)` – returning normally or raising – leaves `hid` out of the registry, keeps every
     other handler, and publishes the minimum level of the rest; the removed handler's lock is free -/
@@ -186,6 +211,22 @@ theorem reentrant_sink_never_deadlocks (env : Env) (c : Cfg) (n i : Nat) (s : HS
     (emitD env c (n + 1) i s).res ≠ .blocked ∧ Quiet (emitD env c (n + 1) i s).st :=
   ⟨(emitD_quiet env c (n + 1) i s hq).2.1, (emitD_quiet env c (n + 1) i s hq).1⟩
 
+/-- FOR EVERY HISTORY of log / complete / remove operations on any set of added handlers, under every
+    fault oracle (stderr tame): no operation ever blocks – no deadlock, `complete()` always returns,
+    so no worker died – and every handler still registered is in working order (lock free, marker
+    clear, not stopped, worker alive, no sentinel pending) after the whole history -/
+theorem every_history_keeps_handlers_usable (env : Env) (ht : StderrTame env) (n : Nat)
+    (cfgs : List Cfg) (ops : List Op) :
+    AllGood (runW env n ops (cfgs.foldl (fun w c => addW c w) {})).1.reg ∧
+    Res.blocked ∉ (runW env n ops (cfgs.foldl (fun w c => addW c w) {})).2.2 :=
+  runW_good env ht n ops _ (addAll_good cfgs {} (by intro p hp; simp at hp))
+
+/-- one step of that induction, for any world in working order -/
+theorem step_keeps_handlers_usable (env : Env) (ht : StderrTame env) (n : Nat) (w : World) (op : Op)
+    (hg : AllGood w.reg) :
+    AllGood (stepW env n w op).w.reg ∧ (stepW env n w op).res ≠ .blocked :=
+  stepW_good env ht n w op hg
+
 /-! ### non-vacuity: concrete environments meeting the hypotheses, evaluated by the kernel -/
 
 /-- handler 1's `format_map` raises KeyError for message 0; handler 2's stream fails to flush -/
@@ -195,7 +236,7 @@ def exEnv : Env :=
       if i = 0 ∧ h = 1 ∧ st = .formatMap then some .keyError
       else if i = 0 ∧ h = 2 ∧ st = .flush then some .osError else none,
     accept := fun _ _ => true, stderr := fun _ _ => .ok, strFails := fun _ => false,
-    reenter := fun i h => if i = 5 ∧ h = 1 then some 6 else none, loop := fun _ => true }
+    reenter := fun i h => if i = 5 ∧ h = 1 then [6, 7] else [], loop := fun _ => true }
 
 def exReg : Reg :=
   [({ id := 0 }, {}), ({ id := 1 }, {}), ({ id := 2, kind := .streamFlush }, {})]
@@ -214,9 +255,10 @@ example : (logLoop exEnv 1 0 [({ id := 0 }, {}), ({ id := 1, catch_ := false }, 
     (logLoop exEnv 1 0 [({ id := 0 }, {}), ({ id := 1, catch_ := false }, {}), ({ id := 2 }, {})]).reg.map
       (fun p => p.2.sink) = [[0], [], []] := by decide
 
-/-- re-entrant sink: message 5 makes handler 1's sink log message 6 to itself – one RuntimeError
-    report about message 6, message 5 is written, the handler is quiet afterwards -/
-example : (emitD exEnv { id := 1 } 1 5 {}).ev = [.report 1 (some 6) .runtimeError false .emit] ∧
+/-- re-entrant sink: message 5 makes handler 1's sink log messages 6 and 7 to itself – one RuntimeError
+    report for each, message 5 is written, the handler is quiet afterwards -/
+example : (emitD exEnv { id := 1 } 1 5 {}).ev =
+      [.report 1 (some 6) .runtimeError false .emit, .report 1 (some 7) .runtimeError false .emit] ∧
     (emitD exEnv { id := 1 } 1 5 {}).st = { sink := [5] } ∧ (emitD exEnv { id := 1 } 1 5 {}).res = .ok := by
   decide
 
